@@ -212,6 +212,14 @@ def _verdict(kind, i):
     return "a"
 
 
+def _system_action(fn):
+    """Like the shipped rail actions (`@action(is_system_action=True)`): results are not echoed into the
+    Colang history that dialog prompts are rendered from."""
+    from nemoguardrails.actions import action
+
+    return action(is_system_action=True, name=fn.__name__)(fn)
+
+
 def _make_check(kind, i):
     async def check(context: dict = None):
         var = "user_message" if kind == "in" else "bot_message"
@@ -223,7 +231,7 @@ def _make_check(kind, i):
         return v != "r"
 
     check.__name__ = f"rail_{kind}_{i}_check"
-    return check
+    return _system_action(check)
 
 
 def _make_mask(kind, i):
@@ -236,7 +244,7 @@ def _make_mask(kind, i):
         return text
 
     mask.__name__ = f"rail_{kind}_{i}_mask"
-    return mask
+    return _system_action(mask)
 
 
 async def dialog_act():
